@@ -75,8 +75,8 @@ Definition cl_assign_name (nm : list N) (n : list N) (l : loc) (eo : option exp)
 Definition cl_local_loop (vis : list (exp * tT * tC)) (ns : list (list N * loc)) (st : tstate) : bool :=
   cl_all (map (fun x => (snd (fst x), snd x)) (firstn (S (length ns)) vis)) st.
 
-Lemma local_adds_fold : forall es nls lc st,
-  local_adds es nls lc st = fold_left (fun s v => add_var v s) (local_vars es nls lc) st.
+Lemma local_adds_fold il : forall es nls lc st,
+  local_adds es nls lc il st = fold_left (fun s v => add_var v s) (local_vars es nls lc il) st.
 Proof.
   induction es as [|e r IH]; intros nls lc st; cbn [local_adds local_vars].
   - generalize st. induction nls as [|p q IHq]; intros st0; [reflexivity|]. cbn [fold_left map]. apply IHq.
@@ -84,9 +84,9 @@ Proof.
 Qed.
 
 (* the shapes used under tb_shape: no more expressions than names *)
-Lemma local_loop_shape (f : exp -> tT) es nls lc st :
+Lemma local_loop_shape (f : exp -> tT) es nls lc il st :
   (length es <= length nls)%nat ->
-  local_loop (map (fun e => (e, f e)) es) nls lc st = local_adds es nls lc (apply_all (map f es) st).
+  local_loop (map (fun e => (e, f e)) es) nls lc il st = local_adds es nls lc il (apply_all (map f es) st).
 Proof.
   intros Hl. unfold local_loop. rewrite firstn_all2 by (rewrite map_length; lia).
   rewrite !map_map. cbn [fst snd]. rewrite map_id. reflexivity.
